@@ -203,7 +203,7 @@ func GetRaw(t util.MerklePatriciaTrieI, p []byte) (res string, val []byte) {
 		// the typed lookup answers like the raw one
 		var tv util.SecureSerializableValue
 		terr := t.GetNodeValue(util.Path(append([]byte(nil), p...)), &tv)
-		if ResClass(terr) != ResClass(err) || (err == nil && !bytes.Equal(tv.Buffer, val)) {
+		if (terr == nil) != (err == nil) || (err == nil && !bytes.Equal(tv.Buffer, val)) {
 			return "typedmismatch"
 		}
 		// the caller owns what a lookup hands out: writing into it must not reach the stored node
